@@ -188,7 +188,7 @@ func init() {
 
 func c02Handler(c18 bool) func(fs *flag.FlagSet) handler {
 	return func(fs *flag.FlagSet) handler {
-		layouts := fs.String("layouts", "lf,cr,crlf,comment", "comma-separated layouts (lf cr crlf comment crlfcom compact)")
+		layouts := fs.String("layouts", "lf,cr,crlf,comment,fragsfirst", "comma-separated layouts (lf cr crlf comment crlfcom compact fragsfirst)")
 		return func(tag string, raw []byte, st *Stats, wk *worker) {
 			switch tag {
 			case "SCHEMA":
